@@ -113,3 +113,43 @@ print(json.dumps(out))
         return {'confirmed': not ok, 'observed': {f"widths with meniscus {spec['second'][2]}": alone[0], f"widths with meniscus {other}": ref[0]},
                 'expected': f"ratio {ratio} (Kelvin radius ~ 1/f, f = 2, 1, 1/2 for cylindrical, hemispherical, hemicylindrical)"}
     return {'confirmed': not same, 'observed': {'second_after_first': both[1], 'second_alone': alone[0]}, 'expected': 'identical pore widths'}
+
+
+def model_isotherm_cases():
+    """the mesopore methods on a *model* isotherm describing the desorption (or adsorption) branch: the generated points are in
+    increasing pressure order whatever the branch is called, so widths increase with pressure and, with a zero-thickness layer, the
+    pore volumes are the successive changes in adsorbed liquid volume (non-negative, summing to the total change)"""
+    import warnings
+    import pygaps
+    import pygaps.characterisation as pgc
+    import pygaps.modelling as pgm
+    pygaps.logger.disabled = True
+    meta = dict(material='pgv_c16', adsorbate='nitrogen', temperature=77.355, pressure_mode='relative', pressure_unit=None, loading_basis='molar',
+                loading_unit='mmol', material_basis='mass', material_unit='g', temperature_unit='K')
+    for br in ('ads', 'des'):
+        m = pgm.get_isotherm_model('Langmuir', parameters={'K': 6.0, 'n_m': 20.0}, pressure_range=(0.05, 0.95), loading_range=(4.6, 17.0), rmse=0.0)
+        iso = pygaps.ModelIsotherm(model=m, branch=br, **meta)
+        for method in ('pygaps-DH', 'BJH', 'DH'):
+            name = f"model_isotherm|branch={br}|{method}"
+            try:
+                with warnings.catch_warnings():
+                    warnings.simplefilter('ignore')
+                    r = pgc.psd_mesoporous(iso, psd_model=method, branch=br, thickness_model='zero thickness', p_limits=(0.1, 0.9))
+                w = numpy.asarray(r['pore_widths'], dtype=float)
+                cum = numpy.asarray(r['pore_volume_cumulative'], dtype=float)
+                probs = []
+                if len(w) < 5 or not numpy.all(numpy.diff(w) > 0):
+                    probs.append(f"widths not increasing: {w[:4]} ... {w[-2:]}")
+                if numpy.any(numpy.diff(cum) < -1e-12):
+                    probs.append(f"cumulative volume decreases: {cum[:4]}")
+            except Exception as exc:
+                probs = [f"{type(exc).__name__}: {exc}"[:160]]
+            yield {'name': name, 'ok': not probs, 'detail': '; '.join(probs)}
+
+
+@replayer('c16.model_isotherm')
+def _model_iso(spec, model):
+    for r in model_isotherm_cases():
+        if r['name'] == spec['name']:
+            return {'confirmed': not r['ok'], 'observed': r['detail'], 'expected': 'widths increasing with pressure, cumulative volume non-decreasing'}
+    return {'confirmed': False, 'error': 'case not found'}
